@@ -265,7 +265,45 @@ struct Runner {
         }
         return o;
     }
-    json observe_all() { return json{{"a", observe(*ob[0])}, {"b", observe(*ob[1])}}; }
+    json observe_all()
+    {
+        json o{{"a", observe(*ob[0])}, {"b", observe(*ob[1])}};
+        // the relational operators the type declares, between the two objects
+        V const& a = *ob[0];
+        V const& b = *ob[1];
+        json rel   = json::array();
+        if constexpr (requires { { a == b } -> std::convertible_to<bool>; }) { rel.push_back({{"op", "eq"}, {"v", (bool)(a == b)}}); }
+        if constexpr (requires { { a != b } -> std::convertible_to<bool>; }) { rel.push_back({{"op", "ne"}, {"v", (bool)(a != b)}}); }
+        if constexpr (requires { { a < b } -> std::convertible_to<bool>; }) { rel.push_back({{"op", "lt"}, {"v", (bool)(a < b)}}); }
+        if constexpr (requires { { a <= b } -> std::convertible_to<bool>; }) { rel.push_back({{"op", "le"}, {"v", (bool)(a <= b)}}); }
+        if constexpr (requires { { a > b } -> std::convertible_to<bool>; }) { rel.push_back({{"op", "gt"}, {"v", (bool)(a > b)}}); }
+        if constexpr (requires { { a >= b } -> std::convertible_to<bool>; }) { rel.push_back({{"op", "ge"}, {"v", (bool)(a >= b)}}); }
+        if (!rel.empty()) { o["rel"] = rel; }
+        nrel = (long)rel.size();
+        return o;
+    }
+    long nrel = -1;
+    // which objects are in moved-from state ("valid but unspecified"): bookkeeping of the calls made, the
+    // trace specification applies the same rule (MvAfter) and judges such objects by capacity only
+    bool mvd[2] = {false, false};
+    json mv_json() const
+    {
+        json a = json::array();
+        if (mvd[0]) { a.push_back("a"); }
+        if (mvd[1]) { a.push_back("b"); }
+        return a;
+    }
+    void mv_update(std::string const& op, int o, json const& x)
+    {
+        static std::set<std::string> const reviving = {"clear", "replace", "copy_assign", "ctor_copy", "move_assign", "ctor_move",
+            "ctor_default", "ctor_range", "ctor_cont", "ctor_su_cont", "ctor_su_range", "ms_ctor_default", "ms_ctor_cont", "ms_ctor_sorted"};
+        if (op == "move_assign" || op == "ctor_move") {
+            mvd[o]                                       = false;
+            mvd[oi(x.value("src", std::string("a")))] = true;
+        } else if (reviving.count(op) != 0) {
+            mvd[o] = false;
+        }
+    }
 
     std::vector<vh::Region> regions()
     {
@@ -349,6 +387,22 @@ struct Runner {
             if constexpr (requires { v.swap(src); }) { v.swap(src); } else { ok = false; }
         } else if (op == "fswap") {
             if constexpr (requires { swap(v, src); }) { swap(v, src); } else { ok = false; }
+        } else if (op == "copy_assign") {
+            if constexpr (std::is_copy_assignable_v<V>) { v = std::as_const(src); } else { ok = false; }
+        } else if (op == "move_assign") {
+            if constexpr (std::is_move_assignable_v<V>) { v = std::move(src); } else { ok = false; }
+        } else if (op == "ctor_copy") {
+            if constexpr (std::is_copy_constructible_v<V>) { v.~V(); new (&v) V(std::as_const(src)); } else { ok = false; }
+        } else if (op == "ctor_move") {
+            if constexpr (std::is_move_constructible_v<V>) { v.~V(); new (&v) V(std::move(src)); } else { ok = false; }
+        } else if (op == "erase_if_odd") {
+            if constexpr (requires { erase_if(v, [](T const&) { return true; }); }) {
+                rn = (long)erase_if(v, [](T const& e) { return vh::val_of(e) % 2 != 0; });
+            } else { ok = false; }
+        } else if (op == "erase_if_eq") {
+            if constexpr (requires { erase_if(v, [](T const&) { return true; }); }) {
+                rn = (long)erase_if(v, [vi](T const& e) { return vh::val_of(e) == vi; });
+            } else { ok = false; }
         } else if (op == "extract") {
             if constexpr (requires { outc.emplace(std::move(v).extract()); }) { outc.emplace(std::move(v).extract()); } else { ok = false; }
         } else if (op == "replace") {
@@ -399,6 +453,7 @@ struct Runner {
         ev["cap"]  = (long)N;
         ev["univ"] = univ;
         ev["pre"]  = state();
+        ev["mv"]   = mv_json();
         ev["inst"] = inst;
         vhc::set_pending(ev);
         long ri = 0, rn = 0;
@@ -410,6 +465,7 @@ struct Runner {
             if (unsupported_seen.insert(op).second) { std::fprintf(stderr, "UNSUPPORTED %s %s\n", inst.c_str(), op.c_str()); }
             return false;
         }
+        mv_update(op, oi(o), x);
         if (!emit) { return true; }
         ev["post"] = state();
         ev["ret"]  = json{{"i", ri}, {"n", rn}};
@@ -433,6 +489,7 @@ struct Runner {
             ob[i]->~V();
             ob[i] = new (store[i]) V();
         }
+        mvd[0] = mvd[1] = false;
     }
 
     // ---- script replay: lines {reset,univ} | {op,o,x,post,last}.  Only the line marked `last` (the edge the
@@ -459,9 +516,18 @@ struct Runner {
                 broken = true; // not provided by this instantiation
                 continue;
             }
-            if (!last && ln.contains("post") && state() != ln["post"]) {
-                broken = true;
-                ++ndesync;
+            if (!last && ln.contains("post")) {
+                // objects the plan leaves moved-from have unspecified contents: not compared
+                json st        = state();
+                json const& pm = ln.contains("postmv") ? ln["postmv"] : json::array();
+                for (auto const* nm : {"a", "b"}) {
+                    if (std::find(pm.begin(), pm.end(), json(nm)) != pm.end()) { continue; }
+                    if (st[nm] != ln["post"][nm]) {
+                        broken = true;
+                        ++ndesync;
+                        break;
+                    }
+                }
             }
         }
     }
@@ -478,13 +544,15 @@ struct Runner {
     {
         std::vector<std::string> ops;
         if constexpr (KIND == K_FMSET) {
-            ops = {"ms_ctor_default", "ms_ctor_cont", "ms_ctor_cont", "ms_ctor_cont", "ms_ctor_sorted"};
+            ops = {"ms_ctor_default", "ms_ctor_cont", "ms_ctor_cont", "ms_ctor_cont", "ms_ctor_sorted", "copy_assign", "move_assign",
+                "ctor_copy", "ctor_move"};
         } else {
             ops = {"insert_copy", "insert_copy", "insert_move", "emplace", "insert_range", "erase_key", "erase_key",
-                "erase_pos", "erase_range", "clear", "swap", "fswap", "ctor_range"};
+                "erase_pos", "erase_range", "clear", "swap", "fswap", "ctor_range", "copy_assign", "move_assign", "ctor_copy",
+                "ctor_move"};
             if constexpr (KIND == K_FSET || KIND == K_FSETIPV) {
                 for (auto s : {"insert_hint_copy", "insert_hint_move", "emplace_hint", "erase_cpos", "extract", "replace",
-                         "ctor_cont", "ctor_su_cont", "ctor_su_range"}) {
+                         "ctor_cont", "ctor_su_cont", "ctor_su_range", "erase_if_odd", "erase_if_eq"}) {
                     ops.emplace_back(s);
                 }
             }
@@ -496,7 +564,7 @@ struct Runner {
         bool grow = true;
         for (long i = 0; i < steps; ++i) {
             if (i % 60 == 59) { reset(); }
-            int o          = KIND == K_FMSET ? 0 : (int)rng.range(0, 1);
+            int o          = (int)rng.range(0, 1);
             auto cur       = current(o);
             long sz        = (long)cur.size();
             long room      = (long)N - sz;
@@ -506,6 +574,16 @@ struct Runner {
             x["src"]       = rng.coin() ? "a" : "b";
             if (sz == 0) { grow = true; }
             if (room == 0) { grow = false; }
+            bool const twoobj = op == "copy_assign" || op == "move_assign" || op == "ctor_copy" || op == "ctor_move";
+            if (twoobj) { x["src"] = o == 0 ? "b" : "a"; }
+            // moved-from objects: only operations whose meaning does not depend on the old contents (plus insert into a
+            // moved-from static_set); nothing that reads a moved-from partner
+            if (mvd[o] && !(twoobj || op == "clear" || op == "ctor_range" || op.rfind("ms_ctor", 0) == 0 || (KIND == K_SSET && op == "insert_copy"))) {
+                op = KIND == K_FMSET ? "ms_ctor_default" : "clear";
+            }
+            if (mvd[1 - o] && (twoobj || op == "swap" || op == "fswap")) { continue; }
+            if (KIND == K_FMSET && !twoobj && o == 1) { o = 0; if (mvd[0]) { continue; } }
+            if (twoobj && rng.coin(50)) { continue; }
             bool shrinks = op == "clear" || op == "extract" || op.rfind("ctor", 0) == 0 || op == "replace";
             if (grow && shrinks && rng.coin(85)) { continue; }
             if (!grow && op.find("insert") != std::string::npos && rng.coin(60)) { op = "erase_key"; }
